@@ -185,6 +185,9 @@ def generate_registry(rf='tape'):
                      # proof steps over the locals at the exit (assert_at style): what the loop guard alone gives on leaving the loop
                      lemmas={'exit': {'guard_size': 'bitlen(ival(n)) == bits', 'guard_d': 'ival(d) >= pow2(bits // 2)'}},
                      loops={0: {'peel': 1, 'havoc': [TPR + '.g_pos'], 'forget': True,
+                                # "on exit BOTH hold from the guard alone": a self-contained check of the guard expression
+                                'exit_gives': {'assume': ['bits >= 1024'],
+                                               'clauses': ['bitlen(ival(n)) == bits', 'ival(d) >= pow2(bits // 2)']},
                                 'types': {'p': OI, 'q': OI, 'n': OI, 'd': OI, 'lcm': OI, 'min_p': OI, 'min_q': OI, 'min_distance': OI,
                                           'size_p': 'int', 'size_q': 'int'},
                                 'invariant': helper + facts('p', 'q', 'n', 'd') +
@@ -228,8 +231,20 @@ def units(prop, tier):
 #                                                                                               the (exception-type) contract allows; the cascade ORDER is not specified here
 #   C08 key.rsa.roundtrip   p and q swapped in the exported DerSequence                 exit 1  rsa_pkcs1_roundtrip.ensures.identity
 #
-# NOT PROVED: RSA.generate: the `while n.size_in_bits() != bits and d < (1 << (bits // 2))` loop with the closures filter_p / filter_q handed to
-#             generate_probable_prime (closure-valued arguments of an assumed callee + loop invariant over Integer.sqrt bounds): P1, not attempted.
+# RSA.generate: PROVED (units key.rsa.generate [caller randfunc] and key.rsa.generate.sysrng [randfunc=None], C05; generate_registry).
+#   Assumed there: the DERIVED contract of Primality.generate_probable_prime (= the contract proved by unit prime.generate_probable_prime,
+#   its abstract pure filter instantiated at the closures filter_p / filter_q, which are executed inside the `filtered` clause), the entropy
+#   tape model, and the trusted textbook fact gcd(a,e) == gcd(b,e) == 1 ==> gcd(e, lcm(a,b)) == 1 (needed to exclude a ValueError from
+#   e.inverse(lcm)).  Integer sqrt / lcm / inverse / size_in_bits / << use the contracts PROVED for IntegerNative (C14); the one-line
+#   wrappers (comparisons, - + *, abs, gcd) are executed.  ValueError: bad arguments are always refused (`domain` on every normal return);
+#   for good arguments a ValueError can only come from p.inverse(q), i.e. gcd(p, q) != 1 -- impossible for primes, not excludable for
+#   "probable primes" without a primality axiom (on_raise clause says exactly this).  Termination is not claimed.
+#   Mutants (tools/mut.py C05 lib/Crypto/PublicKey/RSA.py ... --only key.rsa.generate):
+#     drop `if size_q != size_p: min_p = ...` (seeded change)       exit 1  generate.loop_inv_entry.ival_p_spec_integer_isqrt_pow2_2_bits_bits_2_1 (p's own FIPS margin)
+#     guard `or` -> `and`                                            exit 1  generate.loop_exit.bitlen_ival_n_bits / loop_exit.ival_d_pow2_bits_2 (exit_gives: guard alone)
+#     `bits // 2 - 100` -> `- 10`                                     exit 1  generate.loop_inv_entry.abs_ival_p_ival_q_pow2_bits_2_100
+#     a local of the loop renamed (lcm -> the_lcm)                   exit 2  (the loop spec types every loop-carried local: translate undecided)
+#     an unused local added                                          exit 0
 # NOT PROVED: RSA.construct with a 3-tuple (n, e, d): the factor-recovery loops (`while t % 2 == 0`, `while not spotted and a < 100`, `while k < ktot`)
 #             need three nested invariants over modpow; the 2-, 5- and 6-tuple shapes are proved.  (consistency_check=False: out of the property's scope.)
 # NOT PROVED: export_key: OpenSSH (base64), PEM, PKCS#8 (protected) and the public SubjectPublicKeyInfo path (DerBitString is not in the exact codec);
